@@ -1,5 +1,7 @@
 import MetricsVerif.Driver.Util
 import MetricsVerif.Model.Cow
+import MetricsVerif.Model.CowSend
+import MetricsVerif.Generated.SourceFacts
 
 /-
 Line driver of the ownership model (component `cow`).  Content tokens are hex byte strings (`-` empty): the
@@ -23,6 +25,9 @@ bytes of a `str`, or one byte per element (an index into the harness's element p
                                                       p: same data pointer as the SOURCE)
   cow clonefromu <hd> <hs>  → unwound | h<k> <hex> p=<1|0>   (clone_from with a panicking element Clone armed)
   cow readu <h1> <h2>       → unwound                (a comparison / hash whose element operation panics)
+  cow autotrait <s> <y>     → send=<0|1> sync=<0|1>  (thread model, `Model/CowSend.lean`: is `Cow<[E]>` `Send` / `Sync` for an
+                                                      element type `E` with `E: Send` = s, `E: Sync` = y — decided by the bounds
+                                                      the translator read from the two `unsafe impl` headers of cow.rs)
 
 Every answer ends with ` n=<live allocations | *> s=<strong counts of the arcs the caller still holds, ~ otherwise>`.
 A memory error of the model answers `error <name>` and poisons the rest of the case.
@@ -90,10 +95,17 @@ def showAns (s' : St) (op : Op) : Ans → String
   | .unit => "ok"
   | .unwound => "unwound"
 
+def bitTok (t : String) : Option Bool := if t = "1" then some true else if t = "0" then some false else none
+
 def handle (d : DSt) (args : List String) : Option (DSt × String) :=
   match args with
   | ["count", "on"] => some ({ d with count := true }, "ok")
   | ["count", "off"] => some ({ d with count := false }, "ok")
+  | ["autotrait", es, ey] => do
+    let e : MetricsVerif.CowSend.Elem := { send := (← bitTok es), sync := (← bitTok ey) }
+    let bs := MetricsVerif.CowSend.Bound.ofTokens MetricsVerif.Generated.cow_send_bound_tokens
+    let by' := MetricsVerif.CowSend.Bound.ofTokens MetricsVerif.Generated.cow_sync_bound_tokens
+    pure (d, s!"send={if bs.admits e then 1 else 0} sync={if by'.admits e then 1 else 0}")
   | _ => do
     let op ← parseOp args
     if d.dead then pure (d, "error poisoned") else
